@@ -55,10 +55,22 @@ pub fn op_session(args: &[&str]) -> String {
         let kind = it.next().unwrap();
         let f: Vec<&str> = it.collect();
         let mut events: Vec<String> = vec![];
+        crate::alloc::track(true);
         let r = guarded(|| {
             match kind {
                 "R" => {
+                    crate::alloc::track(false);
                     { let mut s = pipe.0.lock().unwrap(); s.chunks.clear(); s.chunks.push_back(parse_bytes(f[0])); }
+                    crate::alloc::track(true);
+                    client.read(|e| { if let RdpEvent::Bitmap(b) = e { events.push(ev_str(&b)); } else { events.push("[other]".to_string()); } })
+                }
+                "M" => {
+                    // n copies of the frame are waiting in the transport; ONE read call
+                    let n: usize = f[0].parse().unwrap();
+                    let fr = parse_bytes(f[1]);
+                    crate::alloc::track(false);
+                    { let mut s = pipe.0.lock().unwrap(); s.chunks.clear(); for _ in 0..n { s.chunks.push_back(fr.clone()); } }
+                    crate::alloc::track(true);
                     client.read(|e| { if let RdpEvent::Bitmap(b) = e { events.push(ev_str(&b)); } else { events.push("[other]".to_string()); } })
                 }
                 "P" | "K" | "B" => client.write(mk_event(kind, &f)),
@@ -66,6 +78,7 @@ pub fn op_session(args: &[&str]) -> String {
                 _ => panic!("bad step"),
             }
         });
+        crate::alloc::track(false);
         let written = pipe.take_written();
         let res = match r {
             Some(Ok(())) => "ok".to_string(),
